@@ -44,20 +44,20 @@ HIST_SELECTS = [([], []), (["grp", "*"], []), ([], ["t1"]), (["grp", "b"], []), 
 def bounds(tier):
     if tier == "thorough":
         return dict(
-            types=dict(Shapes=[[], [2], [3], [2, 3], [3, 2], [2, 2]], SecShapes=[[], [2], [2, 3]],
+            types=dict(Shapes=[[], [2], [3], [2, 3], [3, 2], [2, 2], [2, 2, 2], [2, 1, 3], [3, 2, 2]], SecShapes=[[], [2], [2, 3]],
                        ArrStarts=list(range(1, 17)), Steps=[0, 1]),
             select=dict(EnvSizes=[1, 2, 3, 7],
                         QuerySet=[[], ["*"], ["grp", "*"], ["grp", "b"], ["grp", "sub", "*"], ["grp", "sub", "d"],
                                   ["zz", "*"], ["a"], ["grp"], ["Size2", "*"]],
                         TagSelSet=[[], ["t1"], ["t2"], ["t3"], ["t1", "t2"], ["t1", "t3"]]),
-            history=dict(MaxCalls=4, HistSelects=HIST_SELECTS))
+            history=dict(MaxCalls=4, HistSelects=HIST_SELECTS), chain=dict(MaxChain=3))
     return dict(
-        types=dict(Shapes=[[], [2], [3], [2, 3], [3, 2], [2, 2]], SecShapes=[[], [2, 3]],
+        types=dict(Shapes=[[], [2], [3], [2, 3], [3, 2], [2, 2], [2, 2, 2], [2, 1, 3]], SecShapes=[[], [2, 3]],
                    ArrStarts=[1, 4], Steps=[1]),
         select=dict(EnvSizes=[2, 7],
                     QuerySet=[[], ["grp", "*"], ["grp", "b"], ["grp", "sub", "*"], ["zz", "*"]],
                     TagSelSet=[[], ["t1"], ["t2"], ["t1", "t2"]]),
-        history=dict(MaxCalls=3, HistSelects=HIST_SELECTS))
+        history=dict(MaxCalls=3, HistSelects=HIST_SELECTS), chain=dict(MaxChain=2))
 
 
 def tla_set(xs, inner):
@@ -70,7 +70,7 @@ def tla_seq(xs):
 
 def run_family(wd, family, b, backends, workers):
     d = dict(Shapes=[[]], SecShapes=[[]], ArrStarts=[1], Steps=[1], EnvSizes=[1], QuerySet=[[]], TagSelSet=[[]],
-             MaxCalls=1, HistSelects=[([], [])])
+             MaxCalls=1, HistSelects=[([], [])], MaxChain=1)
     d.update(b[family])
     mod = "ExportMC_" + family
     mc = [f"---- MODULE {mod} ----", "EXTENDS Export",
@@ -99,6 +99,7 @@ def run_family(wd, family, b, backends, workers):
   TagSelSet <- MCTagSelSet
   MaxCalls = {d["MaxCalls"]}
   HistSelects <- MCHistSelects
+  MaxChain = {d["MaxChain"]}
   Backends <- MCBackends
 INIT Init
 NEXT Next
@@ -145,8 +146,8 @@ def nest(flat, shape):
         return flat[0]
     if len(shape) == 1:
         return list(flat)
-    n, m = shape
-    return [list(flat[i * m:(i + 1) * m]) for i in range(n)]
+    step = len(flat) // shape[0]
+    return [nest(flat[i * step:(i + 1) * step], shape[1:]) for i in range(shape[0])]
 
 
 def lit(ty, txt):
@@ -290,18 +291,28 @@ def do_export(rec, env):
     return exp.parse(**parse_kwargs(be, rec["opt"], rid))
 
 
+def chain_before(rec, env):
+    """Family 'chain': the same parsed environment was already exported through these back-ends (new exporter object each)."""
+    for c in rec.get("_chain", []):
+        try:
+            exporter(c["be"])(env).parse(**parse_kwargs(c["be"], c["opt"], rec["_rid"]))
+        except Exception:
+            pass                                             # judged in the scenarios of that back-end
+
+
 # ------------------------------------------------------------------ observations
 # obs = {"syms": {sym: {"store","kind","bits","sgn","shape","elems":[...],"unit"}}, "keys": [all visible symbols] | None,
 #        "visible": [unselected symbols seen], "error": (mode, text) | None}
 
 def shape_of(v):
+    """nested lists -> (shape, flat row-major elements); (None, None) when ragged"""
     if not isinstance(v, list):
         return [], [v]
     if v and all(isinstance(x, list) for x in v):
-        m = len(v[0])
-        if any(len(x) != m for x in v):
+        subs = [shape_of(x) for x in v]
+        if any(sh is None or sh != subs[0][0] for sh, _ in subs):
             return None, None
-        return [len(v), m], [y for x in v for y in x]
+        return [len(v)] + subs[0][0], [y for _, fl in subs for y in fl]
     return [len(v)], list(v)
 
 
@@ -465,14 +476,16 @@ def parse_bash_output(out):
             s.pop("_n")
             if "A" in fl:
                 try:
+                    import itertools
                     idx = {tuple(int(x) for x in k.split(",")): v for k, v in kv}
                     rank = {len(i) for i in idx}
-                    if rank != {2}:
+                    if len(rank) != 1 or min(rank) < 2:
                         raise ValueError
-                    n, m = max(i[0] for i in idx) + 1, max(i[1] for i in idx) + 1
-                    if len(idx) != n * m:
+                    ext = [max(i[d] for i in idx) + 1 for d in range(min(rank))]
+                    cells = list(itertools.product(*[range(n) for n in ext]))
+                    if len(idx) != len(cells):
                         raise ValueError
-                    s["shape"], s["elems"] = [n, m], [idx[(i, j)] for i in range(n) for j in range(m)]
+                    s["shape"], s["elems"] = ext, [idx[c] for c in cells]
                 except Exception:
                     s["shape"], s["elems"] = ["assoc", sorted(k for k, _ in kv)], [v for _, v in kv]
             elif "a" in fl:
@@ -613,18 +626,30 @@ def phase_a(rec):
     if why:
         return {"status": "notbuilt", "why": why, "dip": text}
     be = rec["be"]
+    chain_before(rec, env)
     try:
         out = do_export(rec, env)
     except Exception as ex:
         obs = {"syms": {}, "keys": None, "visible": [], "error": ("raises", f"{type(ex).__name__}: {str(ex)[:200]}")}
-        return {"status": "judged", "dip": text, "export": None, "items": judge(rec, obs)}
+        return {"status": "judged", "dip": text, "export": None, "items": judge(rec, obs) + env_item(rec, env)}
+    extra = env_item(rec, env)
     if be in COMPILED:
-        return {"status": "pending", "dip": text, "export": out}
+        return {"status": "pending", "dip": text, "export": out, "extra": extra}
     try:
         obs = observe_dip(out) if be == "dip" else observe_data(be, out)
     except Exception as ex:
         obs = {"syms": {}, "keys": None, "visible": [], "error": ("compile", f"reader rejected the export: {type(ex).__name__}: {str(ex)[:200]}")}
-    return {"status": "judged", "dip": text, "export": out, "items": judge(rec, obs)}
+    return {"status": "judged", "dip": text, "export": out, "items": judge(rec, obs) + extra}
+
+
+def env_item(rec, env):
+    """An export reads the environment: afterwards it must still be the environment of the scenario."""
+    why = same_env(env, rec["env"])
+    tags = sorted(set(rec["feat"]) | {"environment"})
+    if why:
+        return [("fail", tags, "environment", "the parsed environment, unchanged", why,
+                 f"{rec['be']}: the environment is not modified by exporting it")]
+    return [("ok", tags, None, None, None, None)]
 
 
 # ------------------------------------------------------------------ phase B: generated reader programs
@@ -645,6 +670,7 @@ static void sh_o(int v){ (void)v; printf("?"); }
 #define EL(x) do{ printf("E|%s|%s|%zu|", KIND(x), SGN(x), sizeof(x)*8); SHOW(x); printf("\n"); }while(0)
 #define REP0(n,x) do{ printf("P|%s|0\n", n); EL(x); }while(0)
 #define REP1(n,x) do{ size_t n0=sizeof(x)/sizeof((x)[0]); printf("P|%s|1|%zu\n", n, n0); for(size_t i_=0;i_<n0;i_++) EL((x)[i_]); }while(0)
+#define REP3(n,x) do{ size_t n0=sizeof(x)/sizeof((x)[0]), n1=sizeof((x)[0])/sizeof((x)[0][0]), n2=sizeof((x)[0][0])/sizeof((x)[0][0][0]); printf("P|%s|3|%zu|%zu|%zu\n", n, n0, n1, n2); for(size_t i_=0;i_<n0;i_++) for(size_t j_=0;j_<n1;j_++) for(size_t k_=0;k_<n2;k_++) EL((x)[i_][j_][k_]); }while(0)
 #define REP2(n,x) do{ size_t n0=sizeof(x)/sizeof((x)[0]), n1=sizeof((x)[0])/sizeof((x)[0][0]); printf("P|%s|2|%zu|%zu\n", n, n0, n1); for(size_t i_=0;i_<n0;i_++) for(size_t j_=0;j_<n1;j_++) EL((x)[i_][j_]); }while(0)
 """
 
@@ -666,6 +692,7 @@ template<> struct El<char*> { static void show(char* const& v){ std::printf("E|s
 template<> struct El<const char*> { static void show(const char* const& v){ std::printf("E|str|na|64|%zu:%s\n", std::strlen(v), v); } };
 template<class T> void rep(const char* n, const T& x){ std::printf("P|%s|0\n", n); El<typename std::remove_cv<T>::type>::show(x); }
 template<class T, std::size_t N> void rep(const char* n, const T (&x)[N]){ std::printf("P|%s|1|%zu\n", n, N); for(std::size_t i=0;i<N;i++) El<typename std::remove_cv<T>::type>::show(x[i]); }
+template<class T, std::size_t N, std::size_t M, std::size_t K> void rep(const char* n, const T (&x)[N][M][K]){ std::printf("P|%s|3|%zu|%zu|%zu\n", n, N, M, K); for(std::size_t i=0;i<N;i++) for(std::size_t j=0;j<M;j++) for(std::size_t k=0;k<K;k++) El<typename std::remove_cv<T>::type>::show(x[i][j][k]); }
 template<class T, std::size_t N, std::size_t M> void rep(const char* n, const T (&x)[N][M]){ std::printf("P|%s|2|%zu|%zu\n", n, N, M); for(std::size_t i=0;i<N;i++) for(std::size_t j=0;j<M;j++) El<typename std::remove_cv<T>::type>::show(x[i][j]); }
 """
 
@@ -680,6 +707,7 @@ impl El for &str { fn el(&self) -> String { format!("E|str|na|0|{}:{}", self.len
 trait Rep { fn rep(&self, n: &str); }
 impl<T: El> Rep for T { fn rep(&self, n: &str) { println!("P|{}|0", n); println!("{}", self.el()); } }
 impl<T: El, const N: usize> Rep for [T; N] { fn rep(&self, n: &str) { println!("P|{}|1|{}", n, N); for x in self.iter() { println!("{}", x.el()); } } }
+impl<T: El, const N: usize, const M: usize, const K: usize> Rep for [[[T; K]; M]; N] { fn rep(&self, n: &str) { println!("P|{}|3|{}|{}|{}", n, N, M, K); for p in self.iter() { for r in p.iter() { for x in r.iter() { println!("{}", x.el()); } } } } }
 impl<T: El, const N: usize, const M: usize> Rep for [[T; M]; N] { fn rep(&self, n: &str) { println!("P|{}|2|{}|{}", n, N, M); for r in self.iter() { for x in r.iter() { println!("{}", x.el()); } } } }
 """
 
@@ -699,7 +727,7 @@ vis() { if declare -p "$1" >/dev/null 2>&1; then printf 'VISIBLE|%s\n' "$1"; fi;
 def fortran_prelude():
     kinds = {"integer": [1, 2, 4, 8], "real": [4, 8, 16], "logical": [4], "character": [1]}
     out = ["module c19_reader", "  implicit none", "  interface rep"]
-    procs = [f"rep_{t[0]}{k}_{r}" for t, ks in kinds.items() for k in ks for r in (0, 1, 2)]
+    procs = [f"rep_{t[0]}{k}_{r}" for t, ks in kinds.items() for k in ks for r in (0, 1, 2, 3)]
     for i in range(0, len(procs), 9):
         out.append("    module procedure " + ", ".join(procs[i:i + 9]))
     out += ["  end interface", "contains"]
@@ -717,17 +745,20 @@ def fortran_prelude():
     for t, ks in kinds.items():
         for k in ks:
             decl = "character(len=*)" if t == "character" else f"{t}(kind={k})"
-            for r in (0, 1, 2):
-                dim = ["", ", dimension(:)", ", dimension(:,:)"][r]
+            for r in (0, 1, 2, 3):
+                dim = ["", ", dimension(:)", ", dimension(:,:)", ", dimension(:,:,:)"][r]
                 out += [f"  subroutine rep_{t[0]}{k}_{r}(n, x)", "    character(len=*), intent(in) :: n",
-                        f"    {decl}{dim}, intent(in) :: x", "    integer :: i, j"]
+                        f"    {decl}{dim}, intent(in) :: x", "    integer :: i, j, k"]
                 if r == 0:
                     out += ['    write(*,"(A,A,A)") "P|", n, "|0"'] + el(t, k, "x")
                 elif r == 1:
                     out += ['    write(*,"(A,A,A,I0)") "P|", n, "|1|", size(x,1)', "    do i = 1, size(x,1)"] + el(t, k, "x(i)") + ["    end do"]
-                else:
+                elif r == 2:
                     out += ['    write(*,"(A,A,A,I0,A,I0)") "P|", n, "|2|", size(x,1), "|", size(x,2)',
                             "    do i = 1, size(x,1)", "    do j = 1, size(x,2)"] + el(t, k, "x(i,j)") + ["    end do", "    end do"]
+                else:
+                    out += ['    write(*,"(A,A,A,I0,A,I0,A,I0)") "P|", n, "|3|", size(x,1), "|", size(x,2), "|", size(x,3)',
+                            "    do i = 1, size(x,1)", "    do j = 1, size(x,2)", "    do k = 1, size(x,3)"] + el(t, k, "x(i,j,k)") + ["    end do", "    end do", "    end do"]
                 out += [f"  end subroutine rep_{t[0]}{k}_{r}"]
     out += ["end module c19_reader"]
     return "\n".join(out) + "\n"
@@ -920,6 +951,8 @@ def run_chunk(args):
 # ------------------------------------------------------------------ run
 
 def describe_history(rec):
+    if "_chain" in rec:
+        return "  [same environment exported before through: " + ", ".join(c["be"] for c in rec["_chain"]) + "]"
     if "_hist" not in rec:
         return ""
     out = []
@@ -940,7 +973,7 @@ def replay_one(path):
     items = a.get("items")
     if a["status"] == "pending":
         obs, _ = run_chunk((rec["be"], [(rec, a["export"])], os.path.join(wd, "replay")))
-        items = judge(rec, obs[rec["_rid"]])
+        items = judge(rec, obs[rec["_rid"]]) + a.get("extra", [])
     print(f"replay {path}: status={a['status']}")
     print("DIP text:\n" + a.get("dip", ""))
     print("export:\n" + str(a.get("export")))
@@ -967,12 +1000,13 @@ def run(replay=None):
     backends = [x for x in os.environ.get("C19_BACKENDS", ",".join(ALL_BACKENDS)).split(",") if x in ALL_BACKENDS]
     # ---- 1. TLC: scenarios + lemmas (two families side by side)
     t0 = time.time()
-    with ThreadPoolExecutor(3) as ex:
+    with ThreadPoolExecutor(4) as ex:
         w = max(1, C.NCPU // 3)
         f1 = ex.submit(run_family, os.path.join(wd, "tlc_types"), "types", b, backends, w)
         f2 = ex.submit(run_family, os.path.join(wd, "tlc_select"), "select", b, backends, w)
         f3 = ex.submit(run_family, os.path.join(wd, "tlc_history"), "history", b, backends, w)
-        r1, r2, r3 = f1.result(), f2.result(), f3.result()
+        f4 = ex.submit(run_family, os.path.join(wd, "tlc_chain"), "chain", b, backends, 1)
+        r1, r2, r3, r4 = f1.result(), f2.result(), f3.result(), f4.result()
     pools = [r for r in r1.records if "pools" in r]
     if not pools:
         raise C.MachineryError("Export.tla did not print its pools")
@@ -990,6 +1024,16 @@ def run(replay=None):
                              "env": h["env"], "query": c["query"], "tags": c["tags"], "opt": c["opt"],
                              "expect": [dict(e, feat=sorted(set(e["feat"]) | set(c["hfeat"]))) for e in c["expect"]],
                              "unselected": c["unselected"], "_hist": {"calls": light, "k": k}})
+    nchain = 0
+    for h in r4.records:
+        if "calls" not in h:
+            continue
+        nchain += 1
+        c = h["calls"][-1]                               # the last export of the chain is read back
+        recs.append({"family": "chain", "be": c["be"], "class": c["class"], "feat": sorted(set(c["feat"]) | set(c["hfeat"])),
+                     "env": h["env"], "query": c["query"], "tags": c["tags"], "opt": c["opt"],
+                     "expect": [dict(e, feat=sorted(set(e["feat"]) | set(c["hfeat"]))) for e in c["expect"]],
+                     "unselected": c["unselected"], "_chain": [{"be": x["be"], "opt": x["opt"]} for x in h["calls"][:-1]]})
     for i, r in enumerate(recs):
         r["_rid"] = i + 1
         r["_seed"] = sd
@@ -1034,8 +1078,8 @@ def run(replay=None):
             continue
         items = a.get("items")
         if a["status"] == "pending":
-            items = judge(rec, obs_by_rid[rec["_rid"]])
-        scen = {k: rec[k] for k in ("family", "be", "class", "env", "query", "tags", "opt", "expect", "unselected", "feat", "_rid", "_seed", "_hist") if k in rec}
+            items = judge(rec, obs_by_rid[rec["_rid"]]) + a.get("extra", [])
+        scen = {k: rec[k] for k in ("family", "be", "class", "env", "query", "tags", "opt", "expect", "unselected", "feat", "_rid", "_seed", "_hist", "_chain") if k in rec}
         pb = per_be.setdefault(rec["be"], {"scenarios": 0, "ok": 0, "fail": 0})
         pb["scenarios"] += 1
         for st, tags, failure, exp, ob, clause in items:
@@ -1052,9 +1096,9 @@ def run(replay=None):
                                  "history": describe_history(rec)})
                 V.fail(scen, exp, ob, clause + describe_history(rec) + "  [DIP: " + a["dip"].replace("\n", " / ")[:200] + "]", tags=tags, failure=failure)
         for e in rec["expect"]:
-            if e["shape"] or rec["query"] or rec["tags"] or not rec["opt"]["rename"] or e["store"] == "macro" or rec.get("_hist", {}).get("k"):
+            if e["shape"] or rec["query"] or rec["tags"] or not rec["opt"]["rename"] or e["store"] == "macro" or rec.get("_hist", {}).get("k") or rec.get("_chain"):
                 nontrivial.add((rec["be"], json.dumps(rec["env"][e["param"] - 1], sort_keys=True), rec["query"], tuple(rec["tags"]),
-                                json.dumps(rec["opt"], sort_keys=True), json.dumps(rec.get("_hist"), sort_keys=True)))
+                                json.dumps(rec["opt"], sort_keys=True), json.dumps(rec.get("_hist") or rec.get("_chain"), sort_keys=True)))
     if dump is not None:
         with open(os.environ["C19_DUMP"], "w") as f:
             json.dump(dump, f, indent=1, default=str)
@@ -1064,22 +1108,24 @@ def run(replay=None):
                         "export": (a.get("export") or "")[:300],
                         "expect": [{k: e[k] for k in ("sym", "store", "tclass", "shape", "unit")} for e in rec["expect"]]})
     V.cov.update({
-        "states": r1.distinct + r2.distinct + r3.distinct, "transitions": r1.generated + r2.generated + r3.generated,
-        "histories": nhist,
+        "states": r1.distinct + r2.distinct + r3.distinct + r4.distinct,
+        "transitions": r1.generated + r2.generated + r3.generated + r4.generated,
+        "histories": nhist, "chains": nchain,
         "traces_validated_against_impl": sum(1 for a in res if a["status"] in ("judged", "pending")),
         "evaluations": evals,
         "distinct_nontrivial": len(nontrivial),
         "rule": "TLC enumerates every scenario of spec/Export.tla inside the bounds (family 'types': one parameter of every DIP type x width x sign "
                 "x shape x value pattern from the pools; family 'select': sub-lists of a 7-parameter pool x query x tag selector; family 'history': "
-                "every history of MaxCalls select()/parse() calls on one exporter object over a 4-parameter environment, one scenario per parse), for every back-end "
+                "every history of MaxCalls select()/parse() calls on one exporter object over a 4-parameter environment, one scenario per parse; family 'chain': every sequence of MaxChain exports of one parsed 5-parameter environment through the "
+                "back-ends, the last one read back), for every back-end "
                 "and applicable option (rename, units, define, const, bash export); every scenario is exported by the real code and read back by the "
-                "format's own reader; evaluations = compared parameters + one selection comparison per scenario; non-trivial = distinct "
+                "format's own reader; evaluations = compared parameters + one selection and one environment-unchanged comparison per scenario; non-trivial = distinct "
                 "(back-end, parameter, selection, options) with an array, a selection, rename off or a macro",
         "samples": samples, "exhaustive": True, "bounds": b, "backends": backends,
         "classes": classes, "not_constructed_by_DIP": notbuilt, "shadowed_by_compile_error": shadowed,
         "per_backend": per_be, "compilations": ncomp,
         "timing_s": {"tlc": round(t_tlc, 1), "export_and_load": round(t_a, 1), "reader_programs": round(t_b, 1)},
-        "lemmas": "LemmaEnv, LemmaNames, LemmaShapes, LemmaSelection on every scenario; LemmaHistory on every history; LemmaTypes as ASSUME",
+        "lemmas": "LemmaEnv, LemmaNames, LemmaShapes, LemmaSelection on every scenario; LemmaHistory on every history; LemmaChain on every chain; LemmaTypes as ASSUME",
     })
     V.assumptions += [
         "gcc/g++/gfortran/rustc/bash/json/PyYAML/tomllib on x86-64 are the readers (long double = 16 bytes, real(16) = binary128)",
